@@ -21,8 +21,39 @@ def state_receivers(fi):
 
 
 def state_properties_keys(repo):
-    """Keys (with their value expressions) of every `state_properties` dict literal the compiler records.
-    Returns [(key, value_node, dict_node, FuncInfo)]."""
+    """Keys of every `state_properties` dict the compiler records: [(key, value_node or None, dict_node or None, FuncInfo)].
+    Read from the dict displays when the compiler writes them as such; otherwise (built by a helper, a comprehension over a
+    table of names, ...) obtained by folding the compiler on templates with a marker operator and reading the recorded statements."""
+    try:
+        return _state_properties_keys_syntactic(repo)
+    except AnalysisError:
+        return _state_properties_keys_folded(repo)
+
+
+def _state_properties_keys_folded(repo):
+    from sa.rules import c08
+    from sa.patheval import Obj
+    fi = repo.method('TemplateCompiler', 'process_bitmapped_descriptor')
+    keys = []
+    templates = [[c08.E(), c08.OP(224000), c08.OP(236000), c08.BITS(), c08.E(8023, 'CODE TABLE'), c08.OP(224255)],
+                 [c08.E(), c08.OP(201130), c08.OP(202129), c08.OP(207002), c08.OP(208003), c08.OP(223000), c08.OP(236000), c08.BITS(), c08.OP(223255),
+                  c08.OP(208000), c08.OP(207000), c08.OP(202000), c08.OP(201000)]]
+    for members in templates:
+        for r, statements in c08.run_compile(repo, members):
+            if not r.ok:
+                continue
+            for st in c08._flatten(statements):
+                sp = st.fields.get('state_properties') if isinstance(st, Obj) else None
+                if isinstance(sp, dict):
+                    for k in sp:
+                        if isinstance(k, str) and k not in keys:
+                            keys.append(k)
+    if not keys:
+        raise AnalysisError('no state_properties recorded by the template compiler for marker operators (neither as dict displays nor when folded)')
+    return [(k, None, None, fi) for k in keys]
+
+
+def _state_properties_keys_syntactic(repo):
     out = []
     m = repo.module('templatecompiler')
     for c in m.classes.values():
